@@ -52,7 +52,7 @@ def main():
             "guard": "libcnb_rs_verif",
             "enable": "no source hooks are needed: the checks read rustc's MIR of the unmodified crates and drive the public API; "
                       "(RUSTFLAGS='--cfg libcnb_rs_verif' would enable hooks if any existed)",
-            "baseline_off_cmd": "cd /repo && cargo test --workspace --no-fail-fast --offline",
+            "baseline_off_cmd": "cd /repo && cargo test --workspace --no-fail-fast --offline --lib --bins --tests",
             "source_commits": [],
             "add_only": True,
         },
